@@ -1,2 +1,4 @@
 import PyemvGen.CvnGen
 import PyemvGen.CvnRefines
+import PyemvGen.ModGen
+import PyemvGen.ModRefines
